@@ -343,6 +343,14 @@ def run(corrupt=None):
     cfgs = configs_for(ck.tier)
     run_configs(ck, cfgs, table, corrupt=corrupt)
     target_identity(ck, 4, ck.seed)
+    # mechanism level (diagnostic for this property): swarms of real updates must be behaviours of PGibbsSM
+    from .. import pgtrace
+    total, unmatched, violated = pgtrace.mechanism_check(ck, "C01", ck.tier == "thorough", 1 + ck.seed)
+    for tr in unmatched[:3]:
+        ck.model_drift("recorded conditional-SMC swarms are not a behaviour of PGibbsSM (start %s, events %s)" % (json.dumps(tr["s0"]), [e["ev"] for e in tr["events"]]))
+    for v in violated:
+        ck.model_drift("PGibbsSM invariant %s violated on a recorded update (judged by C07)" % v)
+    ck.extra["swarm_traces_recorded"] = total
     ck.rule = ("exact kernel (all RNG outcomes) from every start forest for each configuration (n, proposal, wiring, outliers, "
                "particles, resampling threshold, density table / real density+alpha); non-trivial = configurations with > 1 start state")
     ck.assumptions = ["EnumRNG mirrors numpy Generator semantics (multinomial last-category remainder, shuffle, choice, integers)",
